@@ -134,6 +134,7 @@ def gen_cases(tier):
     for i, d in enumerate(D()):
         cases.append({"d": i, "ctx": "alone"})
         cases.append({"d": i, "ctx": "before-table"})
+        cases.append({"d": i, "ctx": "before-table-nosemi"})  # neither statement carries a ';': the table's CREATE ends the declaration
         cases.append({"d": i, "ctx": "after-table"})
         cases.append({"d": i, "ctx": "pair"})
         # directly after a one-line SET statement (as the last statement, and followed by another one-line declaration)
@@ -184,6 +185,8 @@ def build(case):
         return SETLINE + "\n" + d["ddl"]
     if case["ctx"] == "after-set-run":
         return SETLINE + "\n" + d["ddl"] + "\n" + "CREATE DATABASE zz_db;"
+    if case["ctx"] == "before-table-nosemi":
+        return d["ddl"].rstrip(";") + "\n" + OTHER.rstrip(";")
     if case["ctx"] == "before-table":
         return d["ddl"] + "\n" + OTHER
     if case["ctx"] == "after-table":
@@ -286,7 +289,7 @@ def evaluate(case):
             diffs.append(diff("SET statement before the declaration", "neighbour-changed", {"name": "search_path", "value": "public"}, short(res[0], 200)))
         if case["ctx"] == "after-set-run" and res[2] != {"database_name": "zz_db"}:
             diffs.append(diff("declaration after the declaration", "neighbour-changed", {"database_name": "zz_db"}, short(res[2], 200)))
-    if case["ctx"] in ("before-table", "after-table"):
+    if case["ctx"] in ("before-table", "after-table", "before-table-nosemi"):
         t = res[1 - idx]
         ref = run_ddl(OTHER)[1][0]
         if t != ref:
